@@ -1,6 +1,7 @@
 import UralModel.Py.UrlAccessors
 import UralModel.Model.Protocol
 import UralModel.Model.Tld
+import UralModel.Gen.NfkcDelims
 /-!
 # The string-level entry points of `ural/tld.py` and `ural/classes/suffix_trie.py`
 
@@ -30,13 +31,18 @@ def has_valid_tld(url):                          # ural/tld.py:196-206
   only lower-casing before `__walk`'s own is the one inside `SplitResult.hostname`.
 * `not parsed` is never true: a `SplitResult` is a 5-tuple, hence truthy.
 * `.hostname` never raises; the only exception on the way is the `ValueError` of `urlsplit`
-  (unbalanced / invalid brackets in the authority), which none of the functions catches: it
-  is the value `Err.valueError` here.
+  (unbalanced / invalid brackets in the authority, or — `_checknetloc` — a character in the
+  authority whose NFKC form holds one of `/ ? # @ :`), which none of the functions catches:
+  it is the value `Err.valueError` here.
+* `_checknetloc` is not part of the shared parser model (`Py/UrlSplit.lean`); it is added HERE,
+  in `safeUrlsplit` (`nfkcRejects` on the netloc the parser found), character by character over
+  the regenerated table `Gen.nfkcDelimCodes` (observed on the running `urlsplit`; that looking
+  character by character is enough is the obligation `Props.C08.nfkc_check_charwise`).
 * A `SplitResult` argument is passed through unchanged (`…Split` functions below); a string
   goes through `safeUrlsplit` (`…Url` functions).
 
 Restrictions inherited from the parser model (header of `Py/UrlAccessors.lean`): ASCII
-`lower`, no NFKC check, approximate `_check_bracketed_host`.
+`lower`, approximate `_check_bracketed_host`.
 -/
 namespace Ural.TldUrl
 open Ural.Py Ural.SuffixTrie Ural.Tld
@@ -53,10 +59,28 @@ def httpSep : Str := ['h', 't', 't', 'p', ':', '/', '/']
 `PROTOCOL_RE` matches at position 0 (a leading `//` does match) -/
 def safeArg (url : Str) : Str := if (protoLen url).isSome then url else httpSep ++ url
 
+/-- a code point that `urlsplit` refuses in a netloc: its NFKC form holds one of `/ ? # @ :`
+(fullwidth and small forms of the delimiters, `℀ ℁ ℅ ℆`, `⁇ ⁈ ⁉`, `⩴`, … — the regenerated
+table) -/
+def nfkcDelim (c : Char) : Bool := Gen.nfkcDelimCodes.contains c.toNat
+
+/-- `_checknetloc(netloc)` of CPython's `urllib.parse` (called at the end of `urlsplit`):
+```
+if not netloc or netloc.isascii(): return
+n = netloc.replace('@', '').replace(':', '').replace('#', '').replace('?', '')
+netloc2 = unicodedata.normalize('NFKC', n)
+if n == netloc2: return
+for c in '/?#@:':
+    if c in netloc2: raise ValueError(...)
+```
+`true` = raises.  `n` holds none of the five delimiters, so one can appear in `netloc2` only as
+(part of) the NFKC form of a character of the netloc. -/
+def nfkcRejects (netloc : Str) : Bool := netloc.any nfkcDelim
+
 /-- `safe_urlsplit(url)` for a `str` argument -/
 def safeUrlsplit (url : Str) : Except Err SplitResult :=
   match urlsplit (safeArg url) [] with
-  | some r => .ok r
+  | some r => if nfkcRejects r.netloc then .error .valueError else .ok r
   | none => .error .valueError
 
 /-- `parsed.hostname` (`none` = `None`: empty host text) -/
